@@ -107,8 +107,9 @@ theorem withRecover_false (hs : Hdr) (x : Except PanicVal Rec) :
       | .error v => .panicked v := by
   cases x <;> rfl
 
-theorem withRecover_true_ne_panicked (hs : Hdr) (x : Except PanicVal Rec) (v : PanicVal) :
-    withRecover true hs x ≠ .panicked v := by
+theorem withRecover_true_ne_panicked (hs : Hdr) (x : Except PanicVal Rec) (v : PanicVal)
+    (acts : List Act := defaultRecActs) (hw : Bool := false) :
+    withRecover true hs x acts hw ≠ .panicked v := by
   cases x <;> simp [withRecover]
 
 /-! ## `Router.serveContext` sets the recover flag from the router -/
@@ -139,7 +140,7 @@ theorem finish_not_panicked (pc : PanicCfg) (scripts : Scripts) (s : ServeRes)
     rw [hf n rc rfl]; simp [ServeRes.finish, withRecover]
   | call c =>
     simp only [ServeRes.finish, hc c rfl]
-    exact withRecover_true_ne_panicked _ _ _
+    exact withRecover_true_ne_panicked _ _ _ _ _
 
 /-! ## `Group.ServeHTTP` -/
 
